@@ -74,6 +74,8 @@ package spy
 //@ func runSpy(cmd *cobra.Command, args []string)
 //@   props C20
 //@   assume-contract
+//@   wiring p2p.Run: $arg4 == signedInC
+//@   wiring spyServerRunnable: $arg0 == s
 //@   closure [go]#4:
 //@     requires s != nil
 //@     at [v := <-signedInC]: assume-env [queue-holds-messages] v != nil
